@@ -79,6 +79,8 @@ func (sess *hopSession) checkIntent(intent authgrants.Intent, principalCert *cer
 // checks if the session has an auth grant to perform cmd
 func (sess *hopSession) checkCmd(cmd string, shell bool) (sessID, error) {
 	logrus.Info("target: received request to perform: ", cmd)
+	sess.actionsLock.Lock()
+	defer sess.actionsLock.Unlock()
 	now := thunks.TimeNow()
 	for i, ag := range sess.authorizedActions {
 		// a grant can be used from its start time until just before it expires
@@ -111,6 +113,8 @@ func (sess *hopSession) checkPF(fwdType int) error {
 	default:
 		return fmt.Errorf("unknown port forwarding type %d", fwdType)
 	}
+	sess.actionsLock.Lock()
+	defer sess.actionsLock.Unlock()
 	now := thunks.TimeNow()
 	for i, ag := range sess.authorizedActions {
 		if !now.Before(ag.StartTime) && now.Before(ag.ExpTime) && ag.GrantType == want {
